@@ -83,21 +83,46 @@ def _build_tool(name):
 def ensure_facts(config="default", repo=None, log=None):
     """Return the directory holding the fact files for the current tree under `config`."""
     repo = repo or REPO
-    os.makedirs(CACHE, exist_ok=True)
-    lockf = open(os.path.join(CACHE, "lock"), "w")
+    os.makedirs(os.path.join(CACHE, "locks"), exist_ok=True)
+    digest = repo_digest(repo)
+    out = os.path.join(CACHE, "facts", "%s-%s" % (digest, config))
+    if os.path.exists(os.path.join(out, "DONE")):
+        return out
+    # one extraction per (tree, configuration): concurrent checks of the same tree wait for it
+    lockf = open(os.path.join(CACHE, "locks", "%s-%s" % (digest, config)), "w")
     fcntl.flock(lockf, fcntl.LOCK_EX)
+    slotf = None
     try:
-        digest = repo_digest(repo)
-        out = os.path.join(CACHE, "facts", "%s-%s" % (digest, config))
         if os.path.exists(os.path.join(out, "DONE")):
             return out
         t0 = time.time()
         if os.path.isdir(out):
             shutil.rmtree(out)
         os.makedirs(out)
-        drv = _build_tool("mirfacts")
-        gram = _build_tool("gramfacts")
-        target = os.path.join(CACHE, "target-" + config)
+        # the tools are built under one global lock
+        toolf = open(os.path.join(CACHE, "locks", "tools"), "w")
+        fcntl.flock(toolf, fcntl.LOCK_EX)
+        try:
+            drv = _build_tool("mirfacts")
+            gram = _build_tool("gramfacts")
+        finally:
+            fcntl.flock(toolf, fcntl.LOCK_UN)
+            toolf.close()
+        # a small pool of cargo target directories so that different trees (mutant self-tests) extract in parallel;
+        # slot 0 is the one setup warms
+        slot = None
+        while slot is None:
+            for i in range(int(os.environ.get("VERIF_SLOTS", "4"))):
+                sf = open(os.path.join(CACHE, "locks", "slot-%s-%d" % (config, i)), "w")
+                try:
+                    fcntl.flock(sf, fcntl.LOCK_EX | fcntl.LOCK_NB)
+                    slot, slotf = i, sf
+                    break
+                except OSError:
+                    sf.close()
+            if slot is None:
+                time.sleep(0.5)
+        target = os.path.join(CACHE, "target-" + config + ("" if slot == 0 else "-%d" % slot))
         # cargo's freshness cache would skip the wrapper: delete the members' fingerprints
         for fp in glob.glob(os.path.join(target, "debug", ".fingerprint", "tx3*")):
             shutil.rmtree(fp, ignore_errors=True)
@@ -133,14 +158,17 @@ def ensure_facts(config="default", repo=None, log=None):
             fh.write(md.stdout)
         with open(os.path.join(out, "DONE"), "w") as fh:
             json.dump({"digest": digest, "config": config, "extract_s": round(time.time() - t0, 2)}, fh)
-        # keep the cache small: drop fact dirs other than the 16 most recent
+        # keep the cache small: drop fact dirs other than the 24 most recent
         dirs = sorted(glob.glob(os.path.join(CACHE, "facts", "*")), key=os.path.getmtime)
-        for d in dirs[:-16]:
+        for d in dirs[:-24]:
             shutil.rmtree(d, ignore_errors=True)
         if log:
             log("extracted facts for %s (%s) in %.1fs" % (digest, config, time.time() - t0))
         return out
     finally:
+        if slotf is not None:
+            fcntl.flock(slotf, fcntl.LOCK_UN)
+            slotf.close()
         fcntl.flock(lockf, fcntl.LOCK_UN)
         lockf.close()
 
@@ -193,6 +221,11 @@ class Facts:
         with open(os.path.join(directory, "DONE")) as fh:
             self.meta = json.load(fh)
         self._by_trait = None
+        # fail closed: every coroutine body must also be present in its pre-transform form (the path rules on async
+        # functions are only meaningful there)
+        missing = [p for p, f in self.fns.items() if f.get("coroutine") and p not in self.built]
+        if missing:
+            raise BrokenCheck("pre-transform MIR missing for coroutine bodies: %s" % ", ".join(sorted(missing)[:5]))
 
     # ---- lookups -------------------------------------------------------------------------
     def fn(self, path):
